@@ -7,7 +7,7 @@ KINDS = {'wr', 'wrf', 'call', 'arg'}
 MASKS = {"zero": [0, 0, 0, 0], "ones": [255, 255, 255, 255], "lanes": [1, 2, 4, 8], "random": None}
 
 
-def scenario(case, mask, seed):
+def scenario(case, mask, seed, reconnect=False):
     sc = {"conns": [{"stream": [{"t": "http", "v": "ok"}]}], "seed": seed,
           "react": {"ready#0": [["api", case['m'], {"cls": case['cls'], "len": case['len'], "plane": case['plane'],
                                                     "flag": case['flag'], "code": case['code']}]]},
@@ -17,6 +17,12 @@ def scenario(case, mask, seed):
         sc['ws_kwargs'] = {"compress": True}
     if MASKS[mask] is not None:
         sc['mask'] = MASKS[mask]
+    if reconnect:
+        # first connection on the same object: compression negotiated, dropped by the server; the call is made on the second one
+        sc['conns'] = [{"stream": [{"t": "http", "v": "ok", "ext": "permessage-deflate"}]}] + sc['conns']
+        sc['nconnect'] = 2
+        sc['ws_kwargs'] = {"compress": True}
+        sc['react'] = {"ready#1": sc['react']['ready#0']}
     return sc
 
 
@@ -39,6 +45,9 @@ def run(tier, seed):
     for c in cases:
         for mk in masks:
             jobs.append((c, mk, scenario(c['case'], mk, seed + len(jobs))))
+    for c in cases:
+        if not c['case']['neg'] and c['case']['m'] in ('send_text', 'send_binary') and c['case']['len'] in (1, 126):
+            jobs.append((c, 'reconnect', scenario(c['case'], 'random', seed + len(jobs), reconnect=True)))
     logs = pipeline.execute([j[2] for j in jobs])
     r.evaluations = len(jobs)
     r.traces = len(jobs)
@@ -46,8 +55,8 @@ def run(tier, seed):
     nt = set()
     for i, ((c, mk, sc), log) in enumerate(zip(jobs, logs)):
         # records of the API call: from the Ready event up to and including the call record
-        start = next((k for k, x in enumerate(log) if x['k'] == 'ev' and x['name'] == 'ready'), len(log))
         end = next((k for k, x in enumerate(log) if x['k'] == 'call'), len(log) - 1)
+        start = max([k for k, x in enumerate(log[:end]) if x['k'] == 'ev' and x['name'] == 'ready'] or [len(log)])
         tr = sessprop.slim(log[start:end + 1], KINDS, drop=('headers', 'msg'))
         traces.append({"id": i, "case": c['case'], "exp": c['exp'], "tr": tr})
         if any(x['k'] == 'wr' for x in tr):
